@@ -111,9 +111,10 @@ Definition release (e : N) (ros : list rtask) : list rtask :=
 Definition env_tasks (e : N) (ros : list rtask) : list rtask :=
   filter (fun r => option_eqb N.eqb (rt_env r) (Some e)) ros.
 
-(* KillTasks / Cleanup on a set of roster tasks: all leave the roster, the ACTIVE ones get KILL *)
+(* KillTasks / Cleanup on a set of roster tasks: all leave the roster, the ACTIVE ones get KILL;
+   the others too iff doKillTasks has its second, best-effort loop (kill_inactive, regenerated) *)
 Definition kill_set (victims : list rtask) : list N :=
-  map rt_id (filter rt_active victims).
+  map rt_id (filter (fun r => rt_active r || kill_inactive) victims).
 
 Definition remove_ids (ts : list N) (ros : list rtask) : list rtask :=
   filter (fun r => negb (memN (rt_id r) ts)) ros.
@@ -294,7 +295,8 @@ Definition corr18 (c : c18_case) : bool :=
    2  the persisted framework id is not the one in use
    3  after a restart a task is still alive at the master and not in the roster of the new life
    5  a restart's reconciliation sent KILL to a task the new life owns
-   4  a reconnection's reconciliation sent KILL to a task locked by an environment (C18-a)
+   4  a reconnection's reconciliation sent KILL to a task locked by an environment (the behaviour
+      before the repair of C18-a: the KILL rule did not look the task up in the roster)
    6  the observation is malformed (not one record per operation)
    Clauses 1-3 are only demanded with failover enabled and while nobody tampered with the store. *)
 Definition is_tamper (o : op) : bool := match o with OStoreSet _ => true | _ => false end.
@@ -310,8 +312,8 @@ Definition roster_has (t : N) (ros : list (N * (bool * bool))) : bool :=
 Definition first_nonzero (l : list N) : N :=
   match filter (fun c => negb (N.eqb c 0)) l with c :: _ => c | [] => 0 end.
 
-(* codes other than 4 for one operation *)
-Definition mon_op_strict (fo tampered : bool) (id0 : N) (o : op) (before after : obs) : N :=
+(* the codes of one operation *)
+Definition mon_op (fo tampered : bool) (id0 : N) (o : op) (before after : obs) : N :=
   let demanded := fo && negb tampered in
   if demanded && negb (forallb (fun s => fst s && N.eqb (snd s) id0) (o_subs after)) then 1
   else if demanded && negb (option_eqb N.eqb (o_store after) (Some id0)) then 2
@@ -320,15 +322,10 @@ Definition mon_op_strict (fo tampered : bool) (id0 : N) (o : op) (before after :
          if demanded && negb (forallb (fun t => roster_has t (o_roster after)) (o_alive after)) then 3
          else if existsb (fun t => roster_locked t (o_roster after)) (o_kills after) then 5
          else 0
+       | OReconnect =>
+         if existsb (fun t => roster_locked t (o_roster before)) (o_kills after) then 4 else 0
        | _ => 0
        end.
-
-Definition mon_op_known (o : op) (before after : obs) : N :=
-  match o with
-  | OReconnect =>
-    if existsb (fun t => roster_locked t (o_roster before)) (o_kills after) then 4 else 0
-  | _ => 0
-  end.
 
 Fixpoint mon_walk (f : bool -> op -> obs -> obs -> N) (tampered : bool)
          (ops : list op) (before : obs) (rest : list obs) : list N :=
@@ -349,10 +346,8 @@ Definition mon18 (c : c18_case) : N :=
     let strict0 :=
       if negb (list_eqb (pair_eqb Bool.eqb N.eqb) (o_subs o0) [(false, id0)]) || N.eqb id0 0 then 1
       else if negb (option_eqb N.eqb (o_store o0) (Some id0)) then 2 else 0 in
-    let strict := first_nonzero
-      (strict0 :: mon_walk (fun t o b a => mon_op_strict fo t id0 o b a) false (c_ops c) o0 rest) in
-    if negb (N.eqb strict 0) then strict
-    else first_nonzero (mon_walk (fun _ o b a => mon_op_known o b a) false (c_ops c) o0 rest)
+    first_nonzero
+      (strict0 :: mon_walk (fun t o b a => mon_op fo t id0 o b a) false (c_ops c) o0 rest)
   end.
 
 (* ---------- branch tags (input distribution) ----------
@@ -438,5 +433,6 @@ Fixpoint reconnects_unowned (w : world) (ops : list op) : bool :=
 Definition no_reconnect (ops : list op) : bool :=
   forallb (fun o => match o with OReconnect => false | _ => true end) ops.
 
-(* the shortest history on which the pinned code kills an owned task *)
+(* the shortest history on which the rule without the roster lookup (before the repair of C18-a)
+   killed an owned task: regression witness, first corpus case of the harness *)
 Definition c18_witness : list op := [OCreate 1; OReconnect; OAnswer].
